@@ -237,6 +237,8 @@ func ParFor(n int, fn func(i int)) {
 	}
 	var next int64 = -1
 	var wg sync.WaitGroup
+	var pmu sync.Mutex
+	var first *WorkerPanic
 	for k := 0; k < w; k++ {
 		wg.Add(1)
 		go func() {
@@ -246,11 +248,55 @@ func ParFor(n int, fn func(i int)) {
 				if i >= n {
 					return
 				}
-				fn(i)
+				// a panic in a worker would take the whole process down without evidence: carry it to the caller
+				if pv, st := Try(func() { fn(i) }); pv != nil {
+					pmu.Lock()
+					if first == nil {
+						first = &WorkerPanic{Val: pv, Stack: st}
+					}
+					pmu.Unlock()
+					atomic.StoreInt64(&next, int64(n)) // stop handing out work
+					return
+				}
 			}
 		}()
 	}
 	wg.Wait()
+	if first != nil {
+		panic(first)
+	}
+}
+
+// WorkerPanic carries a panic out of a ParFor worker together with the stack it was raised on.
+type WorkerPanic struct {
+	Val   any
+	Stack string
+}
+
+func (w *WorkerPanic) Error() string { return fmt.Sprint(w.Val) }
+
+// PanicOrigin returns the first frame of a recovered panic's stack that is neither the Go runtime nor the
+// harness's own recovery plumbing: the function that raised it.
+func PanicOrigin(stack string) string {
+	lines := strings.Split(stack, "\n")
+	seenPanic := false
+	for _, l := range lines {
+		if strings.HasPrefix(l, "panic(") || strings.HasPrefix(l, "runtime.gopanic") {
+			seenPanic = true
+			continue
+		}
+		if !seenPanic || strings.HasPrefix(l, "\t") || l == "" {
+			continue
+		}
+		if strings.HasPrefix(l, "runtime.") || strings.HasPrefix(l, "runtime/") || strings.HasPrefix(l, "verif/mc/core.") {
+			continue
+		}
+		if i := strings.LastIndex(l, "("); i > 0 {
+			l = l[:i]
+		}
+		return l
+	}
+	return ""
 }
 
 // Try runs f and converts a panic into a value (with stack).
